@@ -55,6 +55,17 @@ def run(ctx):
     # ---------------- G1
     b = cfg.body(f.fns[find(f, POP)])
     ctx.analysed_fns.add(find(f, POP))
+    # the counter vector: the Vec<u32> this function creates with vec![0u32; n] (identified by construction, not by its name)
+    counters = set()
+    for cb, ct in b.calls():
+        if norm_fn(ct.get("fn")) == "alloc::vec::from_elem" and (ct.get("ga") or [""])[0] == "u32":
+            counters.add(ct["dst"]["l"])
+    if len(counters) != 1:
+        raise facts.AnchorMissing("the missing-dependency counter vector (vec![0u32; n]) in pop_topo_sorted_ready")
+
+    def on_counters(op):
+        pv = b.provenance(op, through_calls=True)
+        return bool(pv.locals & counters) or any(b.origin(l, pr)[0] in counters for l, pr in pv.places)
     incs, decs = [], []
     for bi, blk in enumerate(b.blocks):
         if blk.get("cleanup") or bi not in b.live_blocks():
@@ -68,9 +79,7 @@ def run(ctx):
                 k = util.op_const(rv["o"][1])
                 if k is None or k.get("v") != "1":
                     continue
-                pv = b.provenance(rv["o"][0], through_calls=True)
-                names = {b.local_name(l) for l in pv.locals}
-                if "unsatisfied" not in names:
+                if not on_counters(rv["o"][0]):
                     continue
                 (incs if rv["op"].startswith("Add") else decs).append((bi, st))
     ctx.floor("increments of unsatisfied[..]", len(incs), 1)
@@ -94,8 +103,7 @@ def run(ctx):
             ks = [util.op_const(o) for o in src["o"]]
             other = [o for o, k_ in zip(src["o"], ks) if k_ is None]
             if any(k_ is not None and k_.get("v") == "0" for k_ in ks) and other:
-                pv = b.provenance(other[0], through_calls=True)
-                if "unsatisfied" in {b.local_name(l) for l in pv.locals}:
+                if on_counters(other[0]):
                     return True
         return None
     zero_edges = rules.guard_edges(b, zero_true)
@@ -111,7 +119,16 @@ def run(ctx):
     mp = find(f, MISSING)
     m = cfg.body(f.fns[mp])
     ctx.analysed_fns.add(mp)
-    inserts = [(bi, t) for bi, t in m.calls() if norm_fn(t.get("fn")) == "std::collections::hash::set::HashSet::insert" and (m.local_name((m.operand_origin(t["args"][0]) or (0,))[0]) == "missing")]
+    # the reported set: the HashSet whose contents flow into the function's result (identified by data flow, not by its name)
+    ret_locals = set()
+    for rb_, kind, rec in util.ret_defs(m):
+        src = rec["rv"]["o"][0] if kind == "stmt" and rec["rv"].get("o") else None
+        if src is not None:
+            ret_locals |= m.provenance(src, through_calls=True).locals
+        elif kind == "call":
+            for a_ in rec["args"]:
+                ret_locals |= m.provenance(a_, through_calls=True).locals
+    inserts = [(bi, t) for bi, t in m.calls() if norm_fn(t.get("fn")) == "std::collections::hash::set::HashSet::insert" and (m.operand_origin(t["args"][0]) or (None,))[0] in ret_locals]
     ctx.floor("missing.insert sites", len(inserts), 1)
     not_applied = call_false_edges(m, DOC_HAS)
     none_edges = []
